@@ -7,10 +7,18 @@ def parse_assign(stmt: str):
     """'if (Tgas>=10.0 && Tgas<300.0) {\\nk[3] = expr;\\n}' -> (guard, idx, expr)
     guard = ('none',) | ('lower', a) | ('upper', b) | ('both', a, b) with exact Fractions"""
     s = " ".join(stmt.split())
+    # nested `if (A) { if (B) { ... } }` without else branches is the conjunction `if (A && B) { ... }`
+    conds = []
+    while True:
+        mn = re.fullmatch(r"if \(([^{}]*?)\) \{ (if \(.*\}) \}", s)
+        if not mn:
+            break
+        conds.append(mn.group(1))
+        s = mn.group(2)
     m = re.fullmatch(r"if \((.*?)\) \{ (k|kh|kc)\[(\d+)\] = (.*); \}", s)
     if m:
         cond, sym, idx, expr = m.groups()
-        parts = [c.strip() for c in cond.split("&&")]
+        parts = [c.strip() for c0 in conds + [cond] for c in c0.split("&&")]
         lo = hi = None
         for c in parts:
             ml = re.fullmatch(r"Tgas>=(\S+)", c)
@@ -49,6 +57,6 @@ def rates_statements(src: str, func="EvalRates"):
     end = src.index("return NAUNET_SUCCESS;", start)
     body = src[start:end]
     out = []
-    for m in re.finditer(r"(if \([^\n{]*\) \{\s*k[hc]?\[\d+\] = .*?;\s*\}|^\s*k[hc]?\[\d+\] = .*?;)", body, re.S | re.M):
+    for m in re.finditer(r"((?:if \([^\n{]*\) \{\s*)+k[hc]?\[\d+\] = .*?;(?:\s*\})+|^\s*k[hc]?\[\d+\] = .*?;)", body, re.S | re.M):
         out.append(m.group(1))
     return out
